@@ -770,7 +770,8 @@ class AReport:
 
     def points(self, n, names=None):
         names = names if names is not None else [k for k in self.box if k != 'deg']
-        return [sample_point(names, self.box, self.rng, None) for _ in range(n)]
+        # every other self-check point has coordinates on the rim of the claimed domain
+        return [sample_point(names, self.box, self.rng, None, edge=(k % 2 == 1)) for k in range(n)]
 
     def canary(self, name, obls, timeout_s=8, ctx=None, families=None):
         """a mutant must be refuted: some obligation gets a confirmed counterexample"""
